@@ -17,13 +17,15 @@ EXTENDS Locals, TLC
 CONSTANTS Vals, MaxStack, MaxOps, OpKinds, Made0,
           Bug      \* "none" | "setattr" | "delattr" | "release" | "push" | "pop" |
                    \* "release_stack" | "proxy_early" | "spawn_fresh" | "release_all" | "falsy_unbound" |
-                   \* "iop_rebind" | "mgr_iter" | "cleanup_first" | "mw_forget"
+                   \* "iop_rebind" | "mgr_iter" | "cleanup_first" | "mw_forget" | "mw_counter" |
+                   \* "cv_lookup"
 
 VARIABLES st,     \* contract state (Locals.tla)
           im,     \* implementation state
           bad,    \* a return value differed from the contract's
+          relbad, \* a release path left something it releases visible in the releasing context
           n
-vars == <<st, im, bad, n>>
+vars == <<st, im, bad, relbad, n>>
 
 \* ---- heap ----------------------------------------------------------------------------------
 NCtx   == Cardinality(Ctxs)
@@ -35,8 +37,11 @@ EmptyD == [nm \in Names |-> NoBox]
 \*      cont : Boxes -> Vals, pmade : set of proxy kinds, pearly : PKinds -> box captured at creation]
 InitImpl == [hd |-> [r \in Refs |-> EmptyD], hl |-> [r \in Refs |-> <<>>],
              cvd |-> [c \in Ctxs |-> NoRef], cvl |-> [c \in Ctxs |-> NoRef],
-             cont |-> [b \in Boxes |-> Init0(b)], pmade |-> Made0, pearly |-> [k \in PKinds |-> NoBox],
-             pproxy |-> [k \in PKinds |-> TRUE],
+             cont |-> [b \in Boxes |-> Init0(b)], pmade |-> Made0, pearly |-> [k \in AllKinds |-> NoBox],
+             pproxy |-> [k \in AllKinds |-> TRUE],
+             cvar |-> [c \in Ctxs |-> NoBox],   \* the plain ContextVar behind LocalProxy(contextvar)
+             infl |-> {},                 \* contexts holding an unclosed ClosingIterator of the middleware
+             nfl |-> 0,                   \* (Bug "mw_counter": a global count of requests in flight)
              mgr |-> {"ns", "stack"},     \* LocalManager.locals of the manager in use
              mbroken |-> FALSE]           \* .locals holds something that is not a local      \* the Python name k still holds the LocalProxy
 
@@ -80,7 +85,10 @@ SetDict(I, alive, c, d, op) == IF Bug = op THEN SetDictInPlace(I, alive, c, d) E
 SetList(I, alive, c, l, op) == IF Bug = op THEN SetListInPlace(I, alive, c, l) ELSE SetListFresh(I, alive, c, l)
 
 \* LocalProxy._get_current_object() evaluated in context c
-Lookup(I, c, k) == IF k = TOP THEN TopOf(ListOf(I, c)) ELSE DictOf(I, c)[k]
+Lookup(I, c, k) == IF k = TOP THEN TopOf(ListOf(I, c))
+                   ELSE IF k = CVK THEN I.cvar[c]
+                   ELSE IF k = FNK THEN (IF "x" \in Names THEN DictOf(I, c)["x"] ELSE NoBox)
+                   ELSE DictOf(I, c)[k]
 Resolve(I, c, k) == IF Bug = "proxy_early" THEN I.pearly[k]
                     \* "if not obj:" instead of "if obj is None:" -- a falsy top counts as unbound
                     ELSE IF Bug = "falsy_unbound" /\ k = TOP /\ Lookup(I, c, k) # NoBox
@@ -98,19 +106,24 @@ IAppEffect(I, alive, o) ==
   IF o.n # "" THEN SetDict(I, alive, o.ctx, [DictOf(I, o.ctx) EXCEPT ![o.n] = o.b], "setattr")
   ELSE IF o.b # NoBox THEN SetList(I, alive, o.ctx, Append(ListOf(I, o.ctx), o.b), "push") ELSE I
 
+\* LocalProxy(contextvar) turns the ContextVar's LookupError into RuntimeError (Bug "cv_lookup": it does not)
+UnboundExc(k) == ExcR(IF Bug = "cv_lookup" /\ k = CVK THEN "LookupError" ELSE "RuntimeError")
+
 IRet(I, o) ==
   LET c == o.ctx d == DictOf(I, c) l == ListOf(I, c) IN
   CASE o.op = "pop_all" -> IntR(Len(l))
     [] o.op = "cleanup" -> IF I.mbroken THEN ExcR("AttributeError") ELSE OkR
+    [] o.op = "mw_enter" -> IF o.v = 3 THEN ExcR("AppError") ELSE OkR
+    [] o.op = "mw_close" -> IF I.mbroken /\ ~(Bug = "mw_counter" /\ I.nfl > 1) THEN ExcR("AttributeError") ELSE OkR
     [] o.op = "mw" -> IF o.v = 3 THEN ExcR("AppError")
                       ELSE IF I.mbroken /\ Bug # "mw_forget" THEN ExcR("AttributeError") ELSE OkR
     [] o.op = "get"  -> IF d[o.n] # NoBox THEN BoxR(d[o.n]) ELSE ExcR("AttributeError")
     [] o.op = "del"  -> IF d[o.n] # NoBox THEN OkR ELSE ExcR("AttributeError")
     [] o.op = "iter" -> IntR(Cardinality({nm \in Names : d[nm] # NoBox}))
     [] o.op \in {"pop", "top"} -> IF Len(l) = 0 THEN NoneR ELSE BoxR(l[Len(l)])
-    [] o.op = "proxy_read"   -> IF Resolve(I, c, o.k) # NoBox THEN BoxR(Resolve(I, c, o.k)) ELSE ExcR("RuntimeError")
+    [] o.op = "proxy_read"   -> IF Resolve(I, c, o.k) # NoBox THEN BoxR(Resolve(I, c, o.k)) ELSE UnboundExc(o.k)
     [] o.op \in ObjOps -> IF Resolve(I, c, o.k) # NoBox THEN ObjRet(I.cont, Resolve(I, c, o.k), o)
-                           ELSE ExcR("RuntimeError")
+                           ELSE UnboundExc(o.k)
     [] OTHER -> OkR
 
 INext(I, alive, o) ==
@@ -127,8 +140,17 @@ INext(I, alive, o) ==
     [] o.op = "cleanup" -> ICleanup(I, alive, c)
     \* ClosingIterator(app(environ, start_response), self.cleanup): the app runs first; if it raises
     \* nothing is wrapped; otherwise close() -- however much of the body was consumed -- runs cleanup
-    [] o.op = "mw" -> IF o.v = 3 \/ Bug = "mw_forget" THEN IAppEffect(I, alive, o)
+    [] o.op = "mw" -> IF o.v = 3 \/ Bug = "mw_forget" \/ (Bug = "mw_counter" /\ I.nfl > 0)
+                      THEN IAppEffect(I, alive, o)
                       ELSE ICleanup(IAppEffect(I, alive, o), alive, c)
+    \* the two halves of a request.  Bug "mw_counter": the middleware keeps a count of requests in
+    \* flight (state shared by all contexts) and cleans up only when the last one is closed
+    [] o.op = "mw_enter" -> IF o.v = 3 THEN IAppEffect(I, alive, o)
+                            ELSE [IAppEffect(I, alive, o) EXCEPT !.infl = @ \cup {c}, !.nfl = @ + 1]
+    [] o.op = "mw_close" ->
+         LET I1 == [I EXCEPT !.infl = @ \ {c}, !.nfl = @ - 1] IN
+         IF Bug = "mw_forget" \/ (Bug = "mw_counter" /\ I1.nfl > 0) THEN I1 ELSE ICleanup(I1, alive, c)
+    [] o.op = "cv_set" -> [I EXCEPT !.cvar[c] = o.b]
     \* LocalManager(x): None -> [], a Local -> [x], anything else -> list(x).  Bug "mgr_iter" drops
     \* the isinstance test: list(a Local) are the (name, value) items of the constructing context
     [] o.op = "mkmgr" ->
@@ -137,7 +159,7 @@ INext(I, alive, o) ==
          ELSE [I EXCEPT !.mgr = MgrOf(o.k), !.mbroken = FALSE]
     [] o.op = "mgr_append" -> [I EXCEPT !.mgr = @ \cup MgrOf(o.k)]
     [] o.op = "mkproxy" -> [I EXCEPT !.pmade = @ \cup {o.k},
-                                     !.pearly[o.k] = IF o.k = TOP THEN TopOf(l) ELSE d[o.k]]
+                                     !.pearly[o.k] = Lookup(I, c, o.k)]
     [] o.op \in ObjOps ->
          LET b == Resolve(I, c, o.k) IN
          IF b = NoBox THEN I
@@ -147,7 +169,8 @@ INext(I, alive, o) ==
               THEN [I EXCEPT !.pproxy[o.k] = FALSE]
          ELSE [I EXCEPT !.cont = ObjNext(I.cont, b, o)]
     [] o.op = "spawn" -> IF Bug = "spawn_fresh" THEN I     \* child starts empty instead of with the snapshot
-                         ELSE [I EXCEPT !.cvd[o.child] = I.cvd[c], !.cvl[o.child] = I.cvl[c]]
+                         ELSE [I EXCEPT !.cvd[o.child] = I.cvd[c], !.cvl[o.child] = I.cvl[c],
+                                        !.cvar[o.child] = I.cvar[c]]
     [] OTHER -> I
 
 \* ---- product with the contract ---------------------------------------------------------------
@@ -159,29 +182,33 @@ AllOps ==
                                                             "release_dunder", "release_stack_dunder", "pop_all"}}
   \* (LocalManager(bare LocalStack) is left out: the type annotation allows it, the code raises
   \*  TypeError; the contract leaves its outcome open, so the refinement says nothing about it)
+  \cup {O(c, "cv_set", "", b, 0, "", 0) : c \in Ctxs, b \in Boxes}
+  \cup {O(c, "mw_enter", nm, b, v, k, 0) : c \in Ctxs, nm \in Names, b \in Boxes, v \in {0, 3}, k \in MwForms}
+  \cup {O(c, "mw_enter", "", b, v, k, 0) : c \in Ctxs, b \in MwPush, v \in {0, 3}, k \in MwForms}
+  \cup {O(c, "mw_close", "", 0, v, "", 0) : c \in Ctxs, v \in 0..2}
   \cup {O(c, "mkmgr", "", 0, 0, k, 0) : c \in Ctxs, k \in MgrForms \ {"stack"}}
   \cup {O(c, "mgr_append", "", 0, 0, k, 0) : c \in Ctxs, k \in {"local", "stack"}}
   \cup {O(c, "mw", nm, b, v, k, 0) : c \in Ctxs, nm \in Names, b \in Boxes, v \in MwVariants, k \in MwForms}
   \cup {O(c, "mw", "", b, v, k, 0) : c \in Ctxs, b \in MwPush, v \in MwVariants, k \in MwForms}
   \cup {O(c, "push", "", b, 0, "", 0) : c \in Ctxs, b \in Boxes}
-  \cup {O(c, op, "", 0, 0, k, 0) : c \in Ctxs, op \in {"mkproxy", "proxy_read"}, k \in PKinds}
-  \cup {O(c, "proxy_mutate", "", 0, v, k, 0) : c \in Ctxs, v \in Vals, k \in PKinds}
-  \cup {O(c, op, "", 0, 0, k, 0) : c \in Ctxs, op \in {"proxy_pop", "proxy_clear"}, k \in PKinds}
-  \cup {O(c, op, "", 0, v, k, 0) : c \in Ctxs, op \in {"proxy_iadd", "proxy_isub", "proxy_ior"}, v \in IopArgs, k \in PKinds}
-  \cup {O(c, "proxy_imul", "", 0, 2, k, 0) : c \in Ctxs, k \in PKinds}
+  \cup {O(c, op, "", 0, 0, k, 0) : c \in Ctxs, op \in {"mkproxy", "proxy_read"}, k \in MCKinds}
+  \cup {O(c, "proxy_mutate", "", 0, v, k, 0) : c \in Ctxs, v \in Vals, k \in MCKinds}
+  \cup {O(c, op, "", 0, 0, k, 0) : c \in Ctxs, op \in {"proxy_pop", "proxy_clear"}, k \in MCKinds}
+  \cup {O(c, op, "", 0, v, k, 0) : c \in Ctxs, op \in {"proxy_iadd", "proxy_isub", "proxy_ior"}, v \in IopArgs, k \in MCKinds}
+  \cup {O(c, "proxy_imul", "", 0, 2, k, 0) : c \in Ctxs, k \in MCKinds}
   \cup {O(c, "spawn", "", 0, 0, "", ch) : c \in Ctxs, ch \in Ctxs}
 
 Allowed(S, o) == /\ o.op \in OpKinds
                  /\ Enabled(S, o)
                  /\ (o.op = "push" => Len(S.stack[o.ctx]) < MaxStack)
-                 /\ (o.op = "mw" /\ o.n = "" /\ o.b # NoBox => Len(S.stack[o.ctx]) < MaxStack)
+                 /\ (o.op \in {"mw", "mw_enter"} /\ o.n = "" /\ o.b # NoBox => Len(S.stack[o.ctx]) < MaxStack)
                  \* lists grown through a proxy stay small
                  /\ (o.op \in {"proxy_iadd", "proxy_imul"} =>
                         LET b == Bound(S, o.ctx, o.k) IN
                         IF b = NoBox THEN TRUE ELSE IF KindOf(b) # "list" THEN TRUE ELSE S.cont[b] <= 2)
                  /\ (o.op = "spawn" => \A d \in Ctxs : (d < o.child) => d \in S.alive)
 
-Init == st = InitState(Made0) /\ im = InitImpl /\ bad = FALSE /\ n = 0
+Init == st = InitState(Made0) /\ im = InitImpl /\ bad = FALSE /\ relbad = FALSE /\ n = 0
 
 Next == /\ (MaxOps < 0 \/ n < MaxOps)
         /\ \E o \in AllOps :
@@ -189,6 +216,9 @@ Next == /\ (MaxOps < 0 \/ n < MaxOps)
              /\ st' = NextOf(st, o)
              /\ im' = GC(INext(im, st.alive, o), st'.alive)
              /\ bad' = (bad \/ IRet(im, o) # RetOf(st, o))
+             /\ relbad' = (relbad \/ (o.op \in ReleaseOps /\
+                             ~(/\ ("ns" \in Released(st, o) => DictOf(im', o.ctx) = EmptyD)
+                               /\ ("stack" \in Released(st, o) => ListOf(im', o.ctx) = <<>>))))
         /\ n' = IF MaxOps < 0 THEN n ELSE n + 1    \* unbounded configs: n stays 0 (finite state space)
 
 Spec == Init /\ [][Next]_vars
@@ -200,10 +230,15 @@ ProxiesAgree    == /\ im.pmade = st.made
                    /\ \A c \in st.alive : \A k \in st.made : Resolve(im, c, k) = Bound(st, c, k)
 ContentsAgree   == im.cont = st.cont
 ReturnsAgree    == ~bad
+\* "releasing ... does affect the releasing context": after a release path (cleanup, closing the
+\* middleware's iterable, release_local, __release_local__, pop to empty) nothing of what it releases
+\* is left in the releasing context -- whatever other contexts have in flight
+ReleaseReleases == ~relbad
 \* sanity of the heap model itself: copy-on-write means a payload object is never shared by two
 \* contexts after one of them wrote -- sharing exists only through spawn (checked as reachability
 \* by the coverage note below, not as a property)
 
 NoLimit == 0 - 1
 NoneMade == {}
+EveryKindI == AllKinds
 =============================================================================
